@@ -416,11 +416,27 @@ class Path:
             return h.seq
         if h.items is not None:
             return seq_of([self.box(x) for x in h.items])
-        # rule-defined: materialise as a fresh sequence constrained by its length; element facts
-        # are instantiated on access through list_get on the original object
+        # rule-defined: materialise as a sequence constant.  Two rule-defined sequences with the same length term and the
+        # same element term (at a shared placeholder index) are the same sequence, so they share one constant --
+        # this is how a comprehension in the code and a map in a spec function become equal without quantifiers.
         n, rule = h.rule
-        s = self.fresh("defseq", PVSEQ)
-        self.assume(z3.Length(s) == n)
+        istar = z3.Const("i*", I)
+        saved_pc = len(self.pc)
+        self.solver.push()
+        try:
+            elem = z3.simplify(self.box(rule(istar)))
+        finally:
+            self.solver.pop()
+            del self.pc[saved_pc:]
+        key = (z3.simplify(n).sexpr(), elem.sexpr())
+        memo = self.ghost.setdefault("defseq", {})
+        if key in memo:
+            s = memo[key]
+        else:
+            s = self.fresh("defseq", PVSEQ)
+            memo[key] = s
+            self.assume(z3.Length(s) == n)
+            self.ghost.setdefault("defseq_rules", []).append((s, n, rule))
         h.seq = s
         h.rule_inst = rule
         return s
